@@ -574,7 +574,8 @@ def build_op(op, pool, tables, use_knobs=True):
     if o == "loc_slice":
         return x.loc[_lit(op["lo"]):_lit(op["hi"])]
     if o == "nlargest":
-        return getattr(x, op.get("fn", "nlargest"))(op["n"], op["column"])
+        out = getattr(x, op.get("fn", "nlargest"))(op["n"], op["column"])
+        return out[op["column"]] if op.get("only_key") else out
     if o == "str_method":
         sacc = x.str
         return getattr(sacc, op["fn"])(*op.get("args", []))
@@ -1352,12 +1353,11 @@ class Generator:
         if not cands:
             return None
         c = self.rng.choice(cands)
-        op = {"op": "nlargest", "src": m.id, "n": self.rng.choice([1, 2, 3, 5]), "column": c, "fn": self.rng.choice(["nlargest", "nsmallest"])}
-        # ties at the cut-off: which of the tied rows survive is open -> observe the key column only
-        a = self.try_add(op, "open", "open", self.next_id, None)
-        if a is None:
-            return None
-        return self.try_add({"op": "getcol", "src": a.id, "column": c}, "open", "open", a.root, None)
+        op = {"op": "nlargest", "src": m.id, "n": self.rng.choice([1, 2, 3, 5]), "column": c, "fn": self.rng.choice(["nlargest", "nsmallest"]),
+              "only_key": True}
+        # ties at the cut-off: which of the tied rows survive is open, so the *frame* never becomes a member (it could be
+        # drawn as a target or as the input of later ops); only its key column does
+        return self.try_add(op, "open", "open", self.next_id, None)
 
     def g_accessor(self):
         ss = self.series()
